@@ -26,7 +26,7 @@ PY
     continue
   fi
   rm -f "$out/$hash.applyerr"
-  (cd /verif && ./check "$prop" quick > "$out/$hash-$prop.log" 2>&1); rc=$?
+  (cd "${CHECK_DIR:-/verif}" && ./check "$prop" quick > "$out/$hash-$prop.log" 2>&1); rc=$?
   git -C /repo checkout -q -- .
   nv=$(grep -c '^VIOLATION' "$out/$hash-$prop.log")
   classes=$(grep -A1 '^VIOLATION' "$out/$hash-$prop.log" | grep 'class=' | sed 's/ run_index.*//; s/^ *class=//' | sort -u | head -4 | paste -sd';')
